@@ -193,6 +193,23 @@ MUST_FIRE = [
      "            queried_indices = subset_and_labeled_indices[queried_indices]\n", "            pass\n"),
 ]
 
+# behaviour-preserving edits that must stay silent: (id, properties, file, old, new)
+SILENT_EDITS = [
+    ("extract-mask-helper", ["C01", "C02", "C18"], SEL,
+     "            utilities[tuple(best_indices[i])] = np.nan\n",
+     "            _mask_winner(utilities, best_indices[i])\n",
+     "\n\ndef _mask_winner(arr, pos):\n    arr[tuple(pos)] = np.nan\n"),
+    ("hoist-budget-limit", ["C04"], BZ,
+     "        tmp_theta = self.theta_\n\n        # get confidence\n        for i, c in enumerate(confidence):\n            budget_left.append(self.budget_ > tmp_u_t / self.w)",
+     "        tmp_theta = self.theta_\n        limit = self.budget_ * self.w\n\n        # get confidence\n        for i, c in enumerate(confidence):\n            budget_left.append(limit > tmp_u_t)", ""),
+    ("fill-nan-in-two-steps", ["C01", "C02"], P + "pool/_uncertainty_sampling.py",
+     "            utilities = np.full(len(X), np.nan)\n", "            utilities = np.full(len(X), fill_value=np.nan)\n", ""),
+    ("save-with-deepcopy", ["C03"], P + "stream/_density_uncertainty.py",
+     "tmp_window = copy(self.window_)", "tmp_window = deepcopy(self.window_)", ""),
+    ("clone-then-fit-two-steps", ["C05"], P + "pool/_uncertainty_sampling.py",
+     "                clf = clone(clf).fit(X, y)\n", "                clf = clone(clf)\n                clf = clf.fit(X, y)\n", ""),
+]
+
 # functions whose locals are renamed consistently (behaviour preserving)
 RENAME_TARGETS = [
     (SEL, "simple_batch"), (SEL, "rand_argmax"), (BZ, "query_by_utility"), (BZ, "update"), (TB, "query_by_utility"),
@@ -266,6 +283,11 @@ def _run_variant(args):
             elif kind == "reformat":
                 open(path, "w").write(ast.unparse(ast.parse(src)))
                 applied += 1
+            elif kind == "silent-edit":
+                new_, _, append = new.partition("\x00")
+                if src.count(old) == count:
+                    open(path, "w").write(src.replace(old, new_) + append)
+                    applied += 1
             else:
                 if src.count(old) == count:
                     open(path, "w").write(src.replace(old, new))
@@ -292,6 +314,9 @@ def run_for(prop, mod, project):
         count = spec[6] if len(spec) > 6 else 1
         if prop in props:
             jobs.append((prop, root, "fire", vid, [(rel, old, new, count)]))
+    for (vid, props, rel, old, new, append) in SILENT_EDITS:
+        if prop in props:
+            jobs.append((prop, root, "silent-edit", vid, [(rel, old, new + "\x00" + append, 1)]))
     jobs.append((prop, root, "rename", "rename-locals", [(rel, fn, None, 0) for rel, fn in RENAME_TARGETS]))
     allpy = []
     for dp, dn, fns in os.walk(os.path.join(root, PKG)):
@@ -334,7 +359,7 @@ def run_for(prop, mod, project):
                 silent_ok += 1
                 details.append({"variant": vid, "kind": kind, "result": "silent"})
     out = {"variants": len(results), "must_fire": sum(1 for j in jobs if j[2] == "fire"), "killed": killed,
-           "silent_variants": 2, "silent_ok": silent_ok, "skipped": skipped, "details": details}
+           "silent_variants": sum(1 for j in jobs if j[2] != "fire"), "silent_ok": silent_ok, "skipped": skipped, "details": details}
     if failures:
         raise AnalysisError("checker self-test failed: " + " | ".join(failures))
     return out
